@@ -18,6 +18,7 @@ func gen(t *rapid.T) peng.Case {
 		Cancel: true, MaxSleepUs: 4000, StreamItems: 3, AwaitProb: 3, ErrorNodes: true, FullQuorum: true, ReleaseModes: []string{"", "early"}}
 	c := peng.GenShape(t, b)
 	c.CtxCheck = true
+	c.Jitter = peng.GenJitter(t)
 	// node states
 	state := make([]string, c.N)
 	for s := 0; s < c.N; s++ {
